@@ -108,6 +108,9 @@ class Evaluator:
         k = key(e)
         if k in self.env:
             return self.env[k]
+        lk = f'len({k})'
+        if lk in self.env and isinstance(self.env[lk], int) and not isinstance(self.env[lk], bool):
+            return PRESENT if self.env[lk] > 0 else False      # truthiness of a sequence whose length is part of the world
         if self.atoms is not None:
             v = self.atoms(e)
             if v is not UNKNOWN:
@@ -782,12 +785,15 @@ def _walk(p: Path, prefix: T.List[Event], hyp: Hyp, observer: T.Optional[Observe
     opaque: T.Set[str] = set()          # locals whose value the walker lost (loop-carried, unpacked, result of an impure call)
     loop_entry: T.Dict[int, T.Any] = {}
 
-    def unbind(targets: T.Iterable[ast.AST]) -> None:
+    opaque_src: T.Dict[str, T.Optional[T.Set[str]]] = {}   # where a lost local comes from (access paths), None = unknown
+
+    def unbind(targets: T.Iterable[ast.AST], src: T.Optional[T.Set[str]] = None) -> None:
         for t in targets:
             for n in ast.walk(t):
                 if isinstance(n, ast.Name):
                     binds.pop(n.id, None)
                     opaque.add(n.id)
+                    opaque_src[n.id] = src
                     # bindings that read the rebound name are stale too
                     for k in [k for k, v in binds.items() if any(isinstance(x, ast.Name) and x.id == n.id for x in ast.walk(v))]:
                         binds.pop(k)
@@ -816,7 +822,20 @@ def _walk(p: Path, prefix: T.List[Event], hyp: Hyp, observer: T.Optional[Observe
             v = truth(Evaluator(full, consts, calls, hyp.atoms).ev(e))
             if v is None:
                 # a test on a local whose value was lost, or through a helper that cannot be seen into
-                lost = sorted(n.id for n in ast.walk(e) if isinstance(n, ast.Name) and n.id in opaque and n.id not in binds)
+                orig_keys = list(hyp.stable) + list(hyp.volatile)
+                hyp_chains = [kc for k in orig_keys for kc in _chains_of_key(k)]
+                index_names: T.Set[str] = set()          # position counters used to address the hypothesised element
+                for k in orig_keys:
+                    try:
+                        ke = ast.parse(k, mode='eval').body
+                    except SyntaxError:
+                        continue
+                    for sn in ast.walk(ke):
+                        if isinstance(sn, ast.Subscript):
+                            index_names |= {x.id for x in ast.walk(sn.slice) if isinstance(x, ast.Name)}
+                hyp_chains = [c for c in hyp_chains if c not in index_names]
+                lost = sorted(n.id for n in ast.walk(e) if isinstance(n, ast.Name) and n.id in opaque and n.id not in binds and n.id not in index_names
+                              and (opaque_src.get(n.id) is None or any(related(c, kc) for c in opaque_src[n.id] or () for kc in hyp_chains)))
                 if lost:
                     notes.setdefault('unknown', []).append(f'{short(e, 60)} (local `{lost[0]}` is computed by code the rule does not follow)')
                 for c, chains in _calls_touching(e, {}):
@@ -831,6 +850,8 @@ def _walk(p: Path, prefix: T.List[Event], hyp: Hyp, observer: T.Optional[Observe
                         continue      # a truth atom of the world: decided whenever it is tested as such
                     structural = isinstance(kv, (list, tuple, dict, set, frozenset))
                     for kc in _chains_of_key(k):
+                        if kc in index_names:
+                            continue
                         # a test *about the hypothesised value itself* (not about things reachable through it)
                         if any(c == kc or (not structural and c.startswith(kc + '.')) for c in mentioned):
                             notes.setdefault('unknown', []).append(short(e, 80))
@@ -849,12 +870,14 @@ def _walk(p: Path, prefix: T.List[Event], hyp: Hyp, observer: T.Optional[Observe
             fl = flag_loop(node)
             if id(node) not in loop_entry:
                 loop_entry[id(node)] = binds.get(fl[0]) if fl else None
-            unbind([node.target])  # type: ignore[attr-defined]
+            unbind([node.target], _chains_of_key(norm(sub(node.iter))))  # type: ignore[attr-defined]
             # names assigned in the loop body are unknown afterwards; calls inside may touch owners
             for st in getattr(node, 'body', []):
                 for n in ast.walk(st):
                     if isinstance(n, ast.Name) and isinstance(n.ctx, ast.Store):
-                        unbind([n])
+                        vals = [a.value for a in ast.walk(st) if isinstance(a, ast.Assign) and any(t is n for t in a.targets)]
+                        src = set().union(*[_chains_of_key(norm(v)) for v in vals]) if vals and all(_bindable(v) for v in vals) else None
+                        unbind([n], src)
                 for c, chains in _calls_touching(st, binds):
                     for ch in chains:
                         if any(related(ch, kc) for k in volatile for kc in _chains_of_key(k)):
